@@ -2,6 +2,7 @@
 reference semantics on plain lists of rows."""
 import copy
 import numpy as np
+import engine
 import gens, ragidx
 
 EXTRA_READS = ["repr", "str", "iter", "ravel", "size", "shape", "tolist", "index", "ufunc", "reduce", "nonzero", "equals_self",
@@ -313,6 +314,25 @@ def py_value(val):
     return RaggedArray(np.array([x for r in v for x in r], dtype=np.int64), [len(r) for r in v])
 
 
+def _fresh_probe(RaggedArray, x):
+    """a read-only probe with no observation of its own (C06, float operands): the array -- however it was derived -- and an
+    array freshly built from its rows answer a ufunc with a FLOAT column vector (inf, mixed magnitudes) alike.  The integer
+    programs never take a float operand; a derivation that leaves a private flag behind shows up here."""
+    n = len(x)
+    if n == 0 or x.size == 0:
+        return
+    col = np.array([[np.inf, 1.0, 1e16, 3.0][i % 4] for i in range(n)], dtype=np.float64).reshape(-1, 1)
+    try:
+        with np.errstate(all="ignore"):
+            fresh = RaggedArray(x.tolist(), dtype=x.dtype)
+            got = [repr(np.maximum(x, col).tolist()), repr((x + col).tolist())]
+            want = [repr(np.maximum(fresh, col).tolist()), repr((fresh + col).tolist())]
+    except Exception:
+        return
+    if got != want:
+        raise engine.Inconsistent("a derived array and a freshly built equal one answer a float column-vector ufunc differently: %s vs %s" % (got, want))
+
+
 def run_real(prog, extra_reads=None, variant=0):
     """run on real RaggedArray objects; returns the trace (same shape as RefStore observations).
     extra_reads: {position: [(var, kind), ...]} read-only operations inserted BEFORE the statement at
@@ -435,6 +455,7 @@ def run_real(prog, extra_reads=None, variant=0):
                 trace.append(True)
             elif s == "read":
                 trace.append([[int(v) for v in r] for r in x.tolist()])
+                _fresh_probe(RaggedArray, x)
             elif s == "read_idx":
                 r = x[ragidx.py_index(st["idx"], variant)]
                 if isinstance(r, RaggedArray):
@@ -447,6 +468,8 @@ def run_real(prog, extra_reads=None, variant=0):
                 trace.append([int(v) for v in x.sum(axis=-1)])
             elif s == "read_meta":
                 trace.append([int(len(x)), int(x.size), [int(v) for v in x.lengths]])
+        except engine.Inconsistent:
+            raise
         except Exception as e:
             if s in ("read", "read_idx", "read_sum", "read_meta", "read_col"):
                 trace.append("refuse")
